@@ -88,6 +88,14 @@ def _fn_shard(arg):
             acc.fail("normaliser-not-idempotent", {"string": t}, "P(x)={!r} P(P(x))={!r}".format(got, twice))
 
     core.hyp_run(st.text(alphabet=alpha, max_size=12), body, n, core.shard_seed(seed, shard))
+    # long runs of separators / dashes between two words (a bounded quantifier would leave more than one blank)
+    rep = lambda pool, hi: st.builds(lambda k, xs: "".join(xs[i % len(xs)] for i in range(k)), st.integers(1, hi),  # noqa
+                                     st.lists(st.sampled_from(pool), min_size=1, max_size=5))
+    seprun = rep(SEP_SAMPLE, 130)
+    dashrun = rep(DASHES, 80)
+    long_s = st.builds(lambda a, r1, b, r2, c: a + r1 + b + r2 + c, st.sampled_from(["", "a", "8"]), st.one_of(seprun, dashrun),
+                       st.sampled_from(["b", "10", "x1"]), st.one_of(seprun, dashrun, st.just("")), st.sampled_from(["", "c"]))
+    core.hyp_run(long_s, body, max(50, n // 8), core.shard_seed(seed, shard, 7))
     return acc
 
 
@@ -98,7 +106,10 @@ GRAMMAR_EXPR = ["tomorrow 8-10 uhr", "friday 9-5", "5.10.2020 - 8.10.2020", "May
                 "übermorgen um halb acht", "dreißig tage", "nächsten freitag", "from 9 to 17", "8 - 10 h",
                 "monday morning", "very early morning", "zwölf uhr mittags", "12-12-2020", "feb-20",
                 "between 8:00 and 9:00", "heute für zwei nächte", "1st of june", "quarter past eight",
-                "vor 8 uhr", "not before friday", "sonntag nachmittag", "märz 3", "EOM", "jahresende"]
+                "vor 8 uhr", "not before friday", "sonntag nachmittag", "märz 3", "EOM", "jahresende",
+                # am/pm markers (their letter case is looked at by the rule body, not only by the pattern)
+                "12am", "12 am", "12:30 am", "12 a.m.", "tomorrow 12am", "12pm", "12:15 pm", "8 pm", "8:30pm", "11 a.m.", "0:30 am",
+                "friday 12am - 3am", "heute 12 am", "1530h", "8 uhr abends", "halb acht", "viertel nach zwölf", "Mitternacht"]
 
 
 def observe(text, ts):
